@@ -1064,3 +1064,44 @@ func (sp *specialiser) usedInPost(f *ast.ForStmt, v *types.Var) bool {
 	})
 	return assigned
 }
+
+// expandPredicate: a condition that is a call of a declared helper whose body is a single
+// `return <boolean expression>` (sortsBefore(key, bound) = bytes.Compare(key, bound) < 0) is read
+// as that expression with the arguments in place of the parameters. Anything else comes back
+// unchanged.
+func (c *Ctx) expandPredicate(e ast.Expr) ast.Expr {
+	info := c.m.Info
+	call, ok := ast.Unparen(e).(*ast.CallExpr)
+	if !ok || isConversion(info, call) {
+		return e
+	}
+	cu := c.m.calleeUnit(call)
+	if cu == nil || cu.Lit != nil || cu.Decl == nil || cu.Body == nil || cu.Decl.Recv != nil {
+		return e
+	}
+	ret := simpleReturn(cu)
+	if ret == nil {
+		return e
+	}
+	if b, ok := info.TypeOf(ret).Underlying().(*types.Basic); !ok || b.Info()&types.IsBoolean == 0 {
+		return e
+	}
+	var params []*types.Var
+	for _, f := range cu.Decl.Type.Params.List {
+		for _, nm := range f.Names {
+			pv, _ := info.Defs[nm].(*types.Var)
+			if pv == nil {
+				return e
+			}
+			params = append(params, pv)
+		}
+	}
+	if len(params) != len(call.Args) || call.Ellipsis.IsValid() {
+		return e
+	}
+	sp := &specialiser{c: c, info: info, flags: map[*types.Var]bool{}, subst: map[*types.Var]ast.Expr{}, closures: map[*types.Var]*simpleClosure{}, scope: cu.Body, phase: 2}
+	for i, p := range params {
+		sp.subst[p] = parenIfBinary(sp, call.Args[i])
+	}
+	return sp.expr(ret)
+}
